@@ -69,6 +69,24 @@ def run_history(spec, y_full, n0, steps, case, shift=0):
     p = sut(f.predict, None if need_fit and case["fh_when"] == "fit" and not case["repeat_fh"] else fh_for(cutoff))
     discs += check_pred(p, cutoff, steps, spec, "after fit")
     obs.append(("pred0", None if isinstance(p, Raised) else (_labels(p.index), p.to_numpy(dtype=float).tolist())))
+    if case.get("other_kind") and not pools.needs_fh_in_fit(spec) and not discs:
+        # the same NUMBERS as a horizon of the other kind (absolute <-> relative) mean other
+        # time points unless the cutoff is 0: the forecaster must answer for the horizon given now
+        nums = [cutoff + h for h in steps] if absolute else list(steps)
+        if absolute and min(nums) > 0:
+            second, rel2 = ForecastingHorizon(nums, is_relative=True), nums
+        elif not absolute and min(nums) > cutoff:
+            second, rel2 = ForecastingHorizon(nums, is_relative=False), [v - cutoff for v in nums]
+        else:
+            second = None
+        if second is not None:
+            import copy
+
+            f2 = sut(copy.deepcopy, f)  # the horizon passed to predict is remembered: ask a copy
+            p2 = sut(f2.predict, second) if not isinstance(f2, Raised) else f2
+            discs += check_pred(p2, cutoff, rel2, spec, "same numbers as a horizon of the other kind")
+            if discs:
+                return obs, discs
     pos = n0
     for j, k in enumerate(case["updates"]):
         if absolute and pools.needs_fh_in_fit(spec):
@@ -228,6 +246,7 @@ def cases(draw, depth=2, cheap=False):
         "fh_kind": draw(st.sampled_from(["list", "array", "fh", "int", "index", "range", "list_shuffled", "array_shuffled", "index_shuffled", "fh_index_shuffled"])),
         "repeat_fh": draw(st.booleans()), "int_dtype": draw(st.integers(0, 4)) == 0,
         "update_params": draw(st.lists(st.sampled_from([True, True, False]), min_size=1, max_size=3)),
+        "other_kind": draw(st.booleans()),
         "revision": draw(st.one_of(st.none(), st.none(), st.tuples(st.integers(1, 3), st.integers(1, 4)))),
         "shift": draw(st.sampled_from([1, -1, 7, -13, 100, -(start + n - 1) if start + n - 1 != 0 else 5])),
     }
